@@ -14,7 +14,8 @@ type LatLngYAML struct {
 }
 
 func (f LatLngYAML) MarshalYAML() (interface{}, error) {
-	return fmt.Sprintf("%f, %f", f.LatLng.Lat.Degrees(), f.LatLng.Lng.Degrees()), nil
+	// Not %f, which rounds to 6 decimal places (around 10cm).
+	return b6.LatLngToString(f.LatLng), nil
 }
 
 func (f *LatLngYAML) UnmarshalYAML(unmarshal func(interface{}) error) error {
